@@ -1851,6 +1851,9 @@ def normalize(project) -> List[str]:
     renamed = recover_renamed_anchors(project)
     from .normalize2 import simplify_defensive, recover_loops, hoist_lambda_calls, sink_loop_exit, unroll_search_loops, search_loops_to_any, fold_local_tables, dispatch_on_constant, accumulate_to_join, propagate_string_constants, unroll_index_loops, scalarise_local_lists, scalarise_records, fold_dict_building, unfold_reduce, first_match_lists, split_walrus_conjunctions, split_on_name_truth, fold_tested_names, scalarise_slot_dicts
 
+    from . import normalize2 as _n2mod
+    _n2mod.PINNED_SHORT_NAMES.clear()
+    _n2mod.PINNED_SHORT_NAMES.update(q.rsplit(".", 1)[-1] for q in base_funcs)
     module_of = {id(fi.node): fi.module for fi in project.funcs.values()}
     fi_of = {id(fi.node): fi for fi in project.funcs.values()}
     from .resolve import Scope as _Scope
